@@ -53,6 +53,9 @@ def run(ck):
     ck.rule("R2", "the evaluation cache lives for one assignment block only", floor=2)
     ck.rule("R3", "every expression class has a visitor that re-evaluates every child and rebuilds the same node", floor=12)
     ck.rule("R4", "assignment blocks execute in order; the destination is evaluated last", floor=1)
+    ck.rule("R5", "symbolic memory returns the bytes that were written: writer/reader byte-order agreement of MemArray (rules shared with C13-R2)", floor=5)
+    from rules.c13 import byte_order_rules
+    byte_order_rules(ck, ck.repo.mod(SE), "R5")
 
     # effect summaries: which methods may write the symbolic state (transitively through self.* calls)
     writes = dict((n, _direct_state_write(f)) for n, f in meths.items())
